@@ -147,11 +147,15 @@ fn subject_paths() -> (String, String) {
 }
 
 fn write_workspace(families: &[Family]) -> usize {
+	write_workspace_refs(&families.iter().collect::<Vec<_>>())
+}
+
+fn write_workspace_refs(families: &[&Family]) -> usize {
 	let dir = gen_dir();
 	let (fast, derive) = subject_paths();
 	let mut shards: BTreeMap<usize, Vec<&Family>> = BTreeMap::new();
 	for f in families {
-		shards.entry(f.shard).or_default().push(f);
+		shards.entry(f.shard).or_default().push(*f);
 	}
 	let mut changed = 0usize;
 	let mut root = String::from("# GENERATED by `vcheck C20` — do not edit.\n[workspace]\nresolver = \"2\"\nmembers = [\"rt\"");
@@ -235,13 +239,14 @@ fn wait_with_horizon(mut child: std::process::Child, horizon: Duration) -> Optio
 	}
 }
 
-fn cargo_build() -> f64 {
+/// Err = (how it ended, full build log)
+fn cargo_build_try() -> Result<f64, (String, String)> {
 	let t = Instant::now();
 	let log = target_dir().join("c20-build.log");
 	std::fs::create_dir_all(target_dir()).ok();
 	let logf = std::fs::File::create(&log).unwrap_or_else(|e| machinery(&format!("cannot create {}: {e}", log.display())));
 	let child = std::process::Command::new(std::env::var("CARGO").unwrap_or_else(|_| "cargo".into()))
-		.args(["build", "--release", "--offline", "--bins"])
+		.args(["build", "--release", "--offline", "--bins", "--keep-going"])
 		.current_dir(gen_dir())
 		.env("CARGO_TARGET_DIR", target_dir())
 		.env("CARGO_NET_OFFLINE", "true")
@@ -251,33 +256,82 @@ fn cargo_build() -> f64 {
 		.spawn()
 		.unwrap_or_else(|e| machinery(&format!("cannot run cargo: {e}")));
 	match wait_with_horizon(child, BUILD_HORIZON) {
-		Some(st) if st.success() => {}
-		other => {
-			let text = std::fs::read_to_string(&log).unwrap_or_default();
-			let mut shown = 0;
-			for (i, line) in text.lines().enumerate() {
-				if line.starts_with("error") {
-					for l in text.lines().skip(i).take(14) {
-						eprintln!("  {l}");
-					}
-					shown += 1;
-					if shown >= 4 {
-						break;
-					}
-				}
+		Some(st) if st.success() => Ok(t.elapsed().as_secs_f64()),
+		other => Err((
+			match other {
+				None => "horizon exceeded".to_owned(),
+				Some(st) => format!("{st}"),
+			},
+			std::fs::read_to_string(&log).unwrap_or_default(),
+		)),
+	}
+}
+
+fn build_failure(how: &str, text: &str) -> ! {
+	let mut shown = 0;
+	for (i, line) in text.lines().enumerate() {
+		if line.starts_with("error") {
+			for l in text.lines().skip(i).take(14) {
+				eprintln!("  {l}");
 			}
-			machinery(&format!(
-				"the generated crate {} does not build against the current derive crates ({}); either the generator emits a shape the derive rejects or the derive regressed — full log: {}",
-				gen_dir().display(),
-				match other {
-					None => "horizon exceeded".to_owned(),
-					Some(st) => format!("{st}"),
-				},
-				log.display()
-			));
+			shown += 1;
+			if shown >= 4 {
+				break;
+			}
 		}
 	}
-	t.elapsed().as_secs_f64()
+	machinery(&format!(
+		"the generated crate {} does not build against the current derive crates ({how}) and the errors cannot be attributed to families; either the generator emits a shape the derive rejects or the derive regressed — full log: {}",
+		gen_dir().display(),
+		target_dir().join("c20-build.log").display()
+	))
+}
+
+fn cargo_build() -> f64 {
+	match cargo_build_try() {
+		Ok(t) => t,
+		Err((how, text)) => build_failure(&how, &text),
+	}
+}
+
+/// Families whose module has a compile error: (family name, the first error with its location).
+/// None if some error lies outside the family modules (runtime crate, shard main): not attributable.
+fn attribute_compile_errors(text: &str) -> Option<BTreeMap<String, String>> {
+	let lines: Vec<&str> = text.lines().collect();
+	let mut out: BTreeMap<String, String> = BTreeMap::new();
+	let mut i = 0;
+	while i < lines.len() {
+		let l = lines[i];
+		if l.starts_with("error") && !l.starts_with("error: could not compile") && !l.starts_with("error: aborting") {
+			// the location follows within the next few lines
+			let mut fam: Option<String> = None;
+			for l2 in lines.iter().skip(i + 1).take(6) {
+				if let Some(p) = l2.find("--> ") {
+					let loc = &l2[p + 4..];
+					let parts: Vec<&str> = loc.split('/').collect();
+					if parts.len() >= 3 && parts[parts.len() - 2] == "src" {
+						let file = parts[parts.len() - 1].split(':').next().unwrap_or("");
+						if file.len() == 8 && file.starts_with('f') && file.ends_with(".rs") && file[1..5].chars().all(|c| c.is_ascii_digit()) {
+							fam = Some(file[..5].to_owned());
+						}
+					}
+					break;
+				}
+			}
+			match fam {
+				Some(f) => {
+					out.entry(f).or_insert_with(|| lines[i..(i + 8).min(lines.len())].join(" | "));
+				}
+				None => return None,
+			}
+		}
+		i += 1;
+	}
+	if out.is_empty() {
+		None
+	} else {
+		Some(out)
+	}
 }
 
 // ---------------------------------------------------------------------------------------------
@@ -340,7 +394,7 @@ fn run_binary(shard: usize, out: &Path, family: Option<&str>, value: Option<usiz
 }
 
 /// Runs all shards; returns per-family output and the violations attributable to crashes
-fn run_shards(families: &[Family]) -> (BTreeMap<String, FamOut>, Vec<Violation>) {
+fn run_shards_refs(families: &[&Family]) -> (BTreeMap<String, FamOut>, Vec<Violation>) {
 	std::fs::create_dir_all(out_dir()).unwrap_or_else(|e| machinery(&format!("cannot create {}: {e}", out_dir().display())));
 	let shards: BTreeSet<usize> = families.iter().map(|f| f.shard).collect();
 	let results: Vec<(usize, Result<(), String>, BTreeMap<String, FamOut>, bool)> = shards
@@ -358,7 +412,7 @@ fn run_shards(families: &[Family]) -> (BTreeMap<String, FamOut>, Vec<Violation>)
 	let mut viols = Vec::new();
 	for (s, r, m, done) in results {
 		let clean = r.is_ok() && done;
-		let missing: Vec<&Family> = families.iter().filter(|f| f.shard == s && !m.get(&f.name).map_or(false, |o| o.ended)).collect();
+		let missing: Vec<&Family> = families.iter().copied().filter(|f| f.shard == s && !m.get(&f.name).map_or(false, |o| o.ended)).collect();
 		all.extend(m);
 		if clean && missing.is_empty() {
 			continue;
@@ -791,12 +845,46 @@ pub fn run(rep: &mut Report) {
 	let l = listing(thorough);
 	let t_list = t0.elapsed().as_secs_f64();
 	let changed = write_workspace(&l.families);
-	let t_build = cargo_build();
+	// A family the derive refuses to compile: every program of the grammar is a supported shape
+	// that compiles on the unchanged crate, so a compile error located in a family's module is a
+	// verdict about that family ("building its schema succeeds"); anything else is machinery.
+	let mut not_compiling: BTreeMap<String, String> = BTreeMap::new();
+	let t_build = match cargo_build_try() {
+		Ok(t) => t,
+		Err((how, text)) => {
+			let Some(bad) = attribute_compile_errors(&text) else { build_failure(&how, &text) };
+			if bad.len() > l.families.len() / 4 {
+				build_failure(&format!("{how}; {} families do not compile", bad.len()), &text);
+			}
+			not_compiling = bad;
+			let rest: Vec<&Family> = l.families.iter().filter(|f| !not_compiling.contains_key(&f.name)).collect();
+			write_workspace_refs(&rest);
+			cargo_build()
+		}
+	};
+	let compile_viols: Vec<Violation> = l
+		.families
+		.iter()
+		.filter_map(|f| {
+			not_compiling.get(&f.name).map(|err| {
+				let cn = f.crate_name();
+				let placed = Placed { p: &f.program, crate_name: &cn, family: &f.name };
+				Violation {
+					class: "derive-compile-error".into(),
+					what: format!("types `{}` ({}, module {cn}::{}): the program does not compile against the derive crates: {}", placed.type_defs_src(), f.origin, f.name, truncate(err, 700)),
+					replay: json!({"check": "C20", "family": f.name, "shard": f.shard, "program": f.program, "value": Value::Null}),
+				}
+			})
+		})
+		.collect();
+	rep.cover.count("families_that_do_not_compile", compile_viols.len() as u64);
+	let runnable: Vec<&Family> = l.families.iter().filter(|f| !not_compiling.contains_key(&f.name)).collect();
 	let t1 = Instant::now();
-	let (outs, crash_viols) = run_shards(&l.families);
+	let (outs, mut crash_viols) = run_shards_refs(&runnable);
 	let t_run = t1.elapsed().as_secs_f64();
+	crash_viols.extend(compile_viols);
 	let crashed: BTreeSet<String> = crash_viols.iter().filter_map(|v| v.replay["family"].as_str().map(|s| s.to_owned())).collect();
-	rep.cover.count("families_whose_process_died", crashed.len() as u64);
+	rep.cover.count("families_whose_process_died", crashed.len() as u64 - not_compiling.len() as u64);
 	let judged: Vec<Judged> = l
 		.families
 		.par_iter()
@@ -845,6 +933,7 @@ pub fn run(rep: &mut Report) {
 		("raw identifier: union enum", "programs_raw_ident_union_variants"),
 		("raw identifier: type names", "programs_raw_ident_type_names"),
 		("raw identifier: field names", "programs_raw_ident_field_names"),
+		("skip: unit-only enum", "programs_unit_enum_with_skipped_variants"),
 	] {
 		rep.cover.count(counter, l.families.iter().filter(|f| f.origin.contains(marker)).count() as u64);
 	}
@@ -867,7 +956,7 @@ pub fn run(rep: &mut Report) {
 	rep.assumptions.push("the description of a value emitted by the generated Dom impls is the generator's own statement of the serde data model of the type (it shares no code with the derive crates)".into());
 	rep.assumptions.push("generic instantiations whose arguments share a schema node by the derive's documented lookup equivalence (u16 = i32, Box<T> = T, BTreeMap = HashMap) are counted as one instantiation".into());
 	// vacuity guards
-	for k in ["programs_inferred_uuid_from_type_name", "programs_logical_type_substitutes_field_type", "programs_const_generic", "programs_generic_newtype_struct", "programs_skipped_members", "programs_generic_owning_fixed", "programs_namespace_attribute", "programs_generic_enum_owning_nodes_once", "programs_generic_enum_owning_nodes_twice", "programs_generic_enum_t_only", "programs_raw_ident_unit_enum", "programs_raw_ident_union_variants", "programs_raw_ident_type_names", "programs_raw_ident_field_names", "families_with_union_enum", "families_with_generic", "families_with_newtype_struct", "families_recursive", "schemas_valid", "values_round_tripped", "denotation_checked", "values_through_union_enum", "values_with_some"] {
+	for k in ["programs_inferred_uuid_from_type_name", "programs_logical_type_substitutes_field_type", "programs_const_generic", "programs_generic_newtype_struct", "programs_skipped_members", "programs_generic_owning_fixed", "programs_namespace_attribute", "programs_generic_enum_owning_nodes_once", "programs_generic_enum_owning_nodes_twice", "programs_generic_enum_t_only", "programs_raw_ident_unit_enum", "programs_raw_ident_union_variants", "programs_raw_ident_type_names", "programs_raw_ident_field_names", "programs_unit_enum_with_skipped_variants", "families_with_union_enum", "families_with_generic", "families_with_newtype_struct", "families_recursive", "schemas_valid", "values_round_tripped", "denotation_checked", "values_through_union_enum", "values_with_some"] {
 		if rep.cover.counters.get(k).copied().unwrap_or(0) == 0 {
 			machinery(&format!("vacuity guard: counter {k} is 0 — a behaviour the check relies on was never exercised"));
 		}
@@ -894,7 +983,21 @@ pub fn replay(v: &Value) -> i32 {
 		return 2;
 	};
 	write_workspace(&l.families);
-	cargo_build();
+	if let Err((how, text)) = cargo_build_try() {
+		match attribute_compile_errors(&text) {
+			Some(bad) if bad.contains_key(name) => {
+				println!("replaying family {name}: it does not compile against the derive crates:\n  [derive-compile-error] {}", bad[name]);
+				return 1;
+			}
+			Some(bad) => {
+				// other families do not compile: build without them
+				let rest: Vec<&Family> = l.families.iter().filter(|f| !bad.contains_key(&f.name)).collect();
+				write_workspace_refs(&rest);
+				cargo_build();
+			}
+			None => build_failure(&how, &text),
+		}
+	}
 	std::fs::create_dir_all(out_dir()).ok();
 	let out = out_dir().join(format!("replay-{name}.tsv"));
 	let _ = std::fs::remove_file(&out);
